@@ -102,6 +102,7 @@ var c13SplitFaults = [][2]string{
 	{"@if(true", " true)x@end"},
 	{"{{ x = 1;", " # }}"},
 	{"@each(v in [1]", " 2)x@end"},
+	{"@if(true)a@else b", "@elseif(true)c@end"}, // the offending token is the @elseif that follows an @else
 }
 
 // HarnessC13Split: the offending token of the faulty construct follows a symbolic line break inside the construct;
@@ -175,10 +176,16 @@ func HarnessC13Files() {
 		vfsWriteFile(dir+"/components/box.tw", "\n\n<@slot|@slot(\"n\")>")
 	}
 	vfsWriteFile(dir+"/page.tw", page)
+	vfsWriteFile(dir+"/other.tw", "other page")
 	tpl, err := newTemplate(dir, ".tw")
 	vCover("loaded")
 	if runtime {
 		vAssert(err == nil && tpl != nil, "tree-with-a-run-time-fault-loads")
+		if vChoice("after-another-page", 2) == 1 {
+			// the Template has already rendered a different page
+			o, oerr := tpl.String("other", nil)
+			vAssert(oerr == nil && o == "other page", "other-page-renders")
+		}
 		_, ferr := tpl.String("page", nil)
 		vAssert(ferr != nil, "run-time-fault-is-reported")
 		vAssert(ferr.Line() == line, "reported-line-is-the-line-of-the-construct")
